@@ -501,59 +501,77 @@ class Fn:
                         yield (i, "r", a, f, t.get("ln"), p)
 
     # ---- coarse intraprocedural may-derive slice
-    def derive(self, seeds, through_calls=True, stop_calls=()):
-        """flow-insensitive closure: locals that may be derived from `seeds`
-        (a set of local indices). Assignments propagate from any operand to the
-        destination's base local; calls propagate from every argument to the
-        destination and to the referents of &mut arguments."""
-        S = set(seeds)
-        # which locals are &mut borrows of which locals
-        refs = defaultdict(set)  # ref local -> referent base locals
+    def _flow_edges(self, through_calls):
+        """local -> set(local) may-derive edges (cached)"""
+        key = "_fe%d" % (1 if through_calls else 0)
+        if getattr(self, key, None) is not None:
+            return getattr(self, key)
+        E = defaultdict(set)
+        refs = defaultdict(set)
         for i in range(self.n):
             for st in self.stmts(i):
                 rv = st["r"]
                 if rv.get("k") in ("ref", "rawptr") and not proj(st["d"]):
                     refs[st["d"]["l"]].add(rv["p"]["l"])
-        changed = True
-        while changed:
-            changed = False
-            for i in range(self.n):
-                for st in self.stmts(i):
-                    d = st["d"]["l"]
-                    if d in S:
-                        continue
-                    for o in rv_operands(st["r"]):
-                        p = op_place(o)
-                        if p and any(l in S for l in place_locals(p)):
-                            S.add(d)
-                            changed = True
-                            break
-                t = self.term(i)
-                if t["k"] == "call" and through_calls:
-                    c = Call(self, i, t)
-                    if stop_calls and c.matches(stop_calls):
-                        continue
-                    tainted = False
-                    for o in t["args"]:
-                        p = op_place(o)
-                        if p and any(l in S for l in place_locals(p)):
-                            tainted = True
-                            break
-                    if tainted:
-                        d = t["dst"]["l"]
-                        if d not in S:
-                            S.add(d)
-                            changed = True
-                        for o in t["args"]:
-                            l = op_local(o)
-                            if l is not None and "&mut" in self.locals[l]:
-                                for r in refs.get(l, ()):
-                                    if r not in S:
-                                        S.add(r)
-                                        changed = True
-                                if l not in S:
-                                    S.add(l)
-                                    changed = True
+        call_edges = []
+        for i in range(self.n):
+            for st in self.stmts(i):
+                d = st["d"]["l"]
+                for o in rv_operands(st["r"]):
+                    p = op_place(o)
+                    if p:
+                        for l in place_locals(p):
+                            E[l].add(d)
+            t = self.term(i)
+            if t["k"] == "call" and through_calls:
+                srcs = []
+                for o in t["args"]:
+                    p = op_place(o)
+                    if p:
+                        srcs += place_locals(p)
+                dsts = [t["dst"]["l"]]
+                for o in t["args"]:
+                    l = op_local(o)
+                    if l is not None and "&mut" in self.locals[l]:
+                        dsts.append(l)
+                        dsts += list(refs.get(l, ()))
+                call_edges.append((i, srcs, dsts))
+                for s_ in srcs:
+                    for d_ in dsts:
+                        E[s_].add(d_)
+        setattr(self, key, E)
+        self._call_edges = call_edges
+        return E
+
+    def derive(self, seeds, through_calls=True, stop_calls=()):
+        """flow-insensitive closure: locals that may be derived from `seeds`
+        (a set of local indices). Assignments propagate from any operand to the
+        destination's base local; calls propagate from every argument to the
+        destination and to the referents of &mut arguments."""
+        E = self._flow_edges(through_calls)
+        blocked = set()
+        if stop_calls and through_calls:
+            # edges contributed only by stop calls are not followed: recompute without them
+            E2 = defaultdict(set)
+            self._flow_edges(False)
+            base_e = self._flow_edges(False)
+            for k, v in base_e.items():
+                E2[k] |= v
+            for (i, srcs, dsts) in self._call_edges:
+                if Call(self, i, self.term(i)).matches(stop_calls):
+                    continue
+                for s_ in srcs:
+                    for d_ in dsts:
+                        E2[s_].add(d_)
+            E = E2
+        S = set(seeds)
+        dq = deque(S)
+        while dq:
+            a = dq.popleft()
+            for b in E.get(a, ()):
+                if b not in S:
+                    S.add(b)
+                    dq.append(b)
         return S
 
 
@@ -572,6 +590,14 @@ class Facts:
         self._children = None
         self.unknown_callees = None
         self._syn_index = None
+        idx = raw.get("index")
+        self.index = idx
+        if idx is not None:
+            self._cg = defaultdict(set, {k: set(v) for k, v in idx["cg"].items()})
+            self.unknown_callees = idx["unknown_callees"]
+            self._by_name = idx["by_name"]
+        else:
+            self._by_name = None
 
     # ---- lookup
     def has(self, name):
@@ -730,7 +756,16 @@ class Facts:
 
     def call_sites_of(self, *pats, within=None):
         out = []
-        names = within if within is not None else list(self.bodies)
+        if within is None and self._by_name is not None:
+            cand = set()
+            for nm, fns in self._by_name.items():
+                for p in pats:
+                    if (isinstance(p, str) and p == nm) or (not isinstance(p, str) and p.search(nm)):
+                        cand.update(fns)
+                        break
+            names = sorted(cand)
+        else:
+            names = within if within is not None else list(self.bodies)
         for n in names:
             f = self.fn(n)
             for c in f.calls():
